@@ -30,10 +30,9 @@ func VerifDump(q QuotaAdmI, now time.Time) string {
 				cnt, _ := g.context.GetQuotaCounter(g.currentCountKey + " // _counter")
 				age := "-"
 				if ws, err := g.context.Get(g.currentCountKey + " // _window_start"); err == nil {
+					// expired windows keep their exact age: a correct implementation ignores
+					// it, a broken one may not (no abstraction beyond what is proven irrelevant)
 					age = now.Sub(time.Unix(ws, 0)).String()
-					if now.Sub(time.Unix(ws, 0)) >= g.window {
-						age, cnt = "over", 0
-					}
 				}
 				gs = append(gs, fmt.Sprintf("%s=%d@%s/%d", key, cnt, age, len(g.allowedByReqID)))
 			}
